@@ -210,6 +210,13 @@ def run(ctx):
     from . import c10_link, c10_enum
     rules.append(c10_link.run(ctx))
     rules.append(c10_enum.run(prog))
+    from . import c11
+
+    def compiler_fatal(e):
+        # FATAL(...) in libasn1compiler expands to arg->logger_cb(1, fmt, ...)
+        return e["k"] == "call" and e.get("slot") == "logger_cb" and e.get("args") and e["args"][0].get("const") == 1
+    rules.append(c11.r11_3(prog, tab, rid="R10.5", where="libasn1compiler/", fatal=compiler_fatal, floor=15, exckey="r10_5_exceptions", nonzero_fails=True))
+    rules.append(c11.r11_3(prog, load_tables("c11"), rid="R10.6", where="libasn1fix/", floor=60))
     return rules
 
 
